@@ -99,6 +99,8 @@ var libSigs = map[string]libSig{
 	"strlex":            {[]string{}, "Bool"},
 	"strings.Compare":   {[]string{"Str", "Str"}, "Int"},
 	"digdots":           {[]string{"Str"}, "Bool"},
+	"strings.Map":       {[]string{"Fn", "Str"}, "Str"},
+	"splitnosep":        {[]string{"Str"}, "Bool"}, // carrier of two cross-function facts (no meaning of its own)
 }
 
 type libAx struct {
@@ -108,6 +110,12 @@ type libAx struct {
 
 // Axioms are sound consequences of the documented behaviour (audited by `govc audit`).
 var libAxioms = map[string]libAx{
+	// a part of strings.Split(s, p) does not contain p; what TrimSpace(s) contains, s contains (used for the measure of
+	// pypi.parseSpecifier's recursion only: pulled in by a function-level `decreases` clause)
+	"splitnosep": {[]string{"strings.Split", "strings.Contains", "strings.TrimSpace"}, []string{
+		"(assert (forall ((s Str) (p Str) (i Int)) (! (=> (and (> (str_len p) 0) (<= 0 i) (< i (len_L_Str (L_strings_Split s p)))) (not (L_strings_Contains (select (arr_L_Str (L_strings_Split s p)) i) p))) :pattern ((select (arr_L_Str (L_strings_Split s p)) i)))))",
+		"(assert (forall ((s Str) (p Str)) (! (=> (L_strings_Contains (L_strings_TrimSpace s) p) (L_strings_Contains s p)) :pattern ((L_strings_Contains (L_strings_TrimSpace s) p)))))",
+	}},
 	"isdigits": {nil, []string{
 		// isdigits(s): s is a non-empty string of ASCII digits
 		"(assert (forall ((s Str)) (! (=> (L_isdigits s) (> (str_len s) 0)) :pattern ((L_isdigits s)))))",
@@ -586,6 +594,13 @@ func (e *Exec) sortFunc(x *ssa.Call) {
 	r := e.reach[e.curBlock]
 	e.assume(implies(r, fmt.Sprintf("(forall ((i Int)) (! (=> (and (<= 0 i) (< i %s)) (and (<= 0 (%s i)) (< (%s i) %s) (= %s %s))) :pattern ((%s i))))", n, perm, perm, n, at(nv, "i"), at(old, "("+perm+" i)"), perm)))
 	e.assume(implies(r, fmt.Sprintf("(forall ((i Int) (j Int)) (! (=> (and (<= 0 i) (< i %s) (<= 0 j) (< j %s) (= (%s i) (%s j))) (= i j)) :pattern ((%s i) (%s j))))", n, n, perm, perm, perm, perm)))
+	// ... a permutation has an inverse: the element that was at position m is at position sortinv(m) afterwards
+	inv := fmt.Sprintf("sortinv%d", k)
+	if !e.g.funSeen[inv] {
+		e.g.funSeen[inv] = true
+		e.g.declare(fmt.Sprintf("(declare-fun %s (Int) Int)", inv))
+	}
+	e.assume(implies(r, fmt.Sprintf("(forall ((m Int)) (! (=> (and (<= 0 m) (< m %s)) (and (<= 0 (%s m)) (< (%s m) %s) (= (%s (%s m)) m))) :pattern ((%s m))))", n, inv, inv, n, perm, inv, inv)))
 	// instances the solver does not find by itself: the permutation facts at the goal constants, and the declared
 	// invariants of the loops that built the slice at the images of those constants
 	if e.parent == nil {
@@ -617,6 +632,11 @@ func (e *Exec) sortCompare(cmp ssa.Value, elem types.Type) func(a, b Term) Term 
 	f, ok := cmp.(*ssa.Function)
 	if mc, isClosure := cmp.(*ssa.MakeClosure); isClosure && !ok {
 		f, ok = mc.Fn.(*ssa.Function)
+	}
+	if ok && f.Parent() != nil && len(f.FreeVars) == 0 && len(f.Params) == 2 && e.w.contractOf(f) != nil {
+		// a comparison literal without captured variables that has a contract of its own (//@ func Outer$k): the order
+		// fact is stated with its function symbol, the contract says what the comparison computes
+		return func(a, b Term) Term { return e.g.useCallee(f, []Term{a, b})[0] }
 	}
 	if !ok || !strings.HasSuffix(strings.TrimSuffix(f.Name(), "$thunk"), "Compare") && !strings.Contains(f.Name(), "Compare$") {
 		return nil
